@@ -5,8 +5,10 @@
 (* input is a concatenation of lexemes, each a fixed token list that       *)
 (* leaves the lexer in text mode (so token lists compose), optionally      *)
 (* ended by an "open" lexeme (a construct cut in the middle: the prefixes  *)
-(* of C08).  The expression sub-language is: INT, IDENT, STR atoms, binary *)
-(* ADD, parentheses, array and object literals.                            *)
+(* of C08).  Expressions: the whole Pratt loop of parseExpression with the *)
+(* precedence table (atoms, prefix - and !, every binary operator, ?:,     *)
+(* index, member access and calls, ++ / --, grouping, array and object     *)
+(* literals).                                                              *)
 (*                                                                         *)
 (*   toks   the token types, EOF implied past the end                      *)
 (*   i      index of curToken; peekToken is i + 1                          *)
@@ -47,21 +49,31 @@ variables inp \in Inputs, toks = inp.toks, i = 1, errs = <<>>, nilp = FALSE,
 define
   Tok(k) == IF k >= 1 /\ k <= Len(toks) THEN toks[k] ELSE "EOF"
   Closers == {"END", "ELSE", "ELSE_IF"}
+  Atoms == {"INT", "IDENT", "STR", "FLOAT", "TRUE", "FALSE", "NIL"}
+  BinOps == {"ADD", "SUB", "MUL", "DIV", "MOD", "EQ", "NOT_EQ", "LTHAN", "GTHAN", "LTHAN_EQ", "GTHAN_EQ"}
+  \* the table 'precedences' of parser.go (LOWEST = 1 for every other token)
+  Prec(t) == CASE t = "QUESTION" -> 2 [] t \in {"EQ", "NOT_EQ"} -> 3 [] t \in {"LTHAN", "GTHAN", "LTHAN_EQ", "GTHAN_EQ"} -> 4
+               [] t \in {"ADD", "SUB"} -> 5 [] t \in {"MUL", "DIV", "MOD"} -> 6 [] t = "DOT" -> 7 [] t = "LPAREN" -> 9
+               [] t = "LBRACKET" -> 10 [] t \in {"INC", "DEC"} -> 11 [] OTHER -> 1
   RECURSIVE WsRun(_)
   WsRun(k) == IF Tok(k) = "WS" THEN 1 + WsRun(k + 1) ELSE 0      \* white-space-only text tokens starting at k
 end define;
 
 macro err(e) begin errs := Append(errs, e); end macro;
 
-\* parseExpression(LOWEST) restricted to atoms, ADD, grouping, array and object literals
-procedure parseExpr()
+\* parseExpression(prec): the Pratt loop of parser.go with its precedence table. An infix function that fails returns nil
+\* to the loop, which goes on with the next token (so does the model: no 'return' after an error in the loop).
+procedure parseExpr(prec)
 begin
- E0: if Tok(i) \in {"INT", "IDENT", "STR"} then
+ E0: if Tok(i) \in Atoms then
        skip;
-     elsif Tok(i) = "LPAREN" then
+     elsif Tok(i) \in {"SUB", "NOT"} then                 \* parsePrefixExp
        i := i + 1;
-       call parseExpr();
- E1:   if Tok(i + 1) = "RPAREN" then i := i + 1; else err("expected )"); return; end if;
+       call parseExpr(8);
+     elsif Tok(i) = "LPAREN" then                         \* parseGroupedExpression
+       i := i + 1;
+       call parseExpr(1);
+ E1:   if Tok(i + 1) = "RPAREN" then i := i + 1; else err("expected )"); end if;
      elsif Tok(i) = "LBRACKET" then
        call parseList("RBRACKET");
      elsif Tok(i) = "LBRACE" then
@@ -70,12 +82,40 @@ begin
        err("no prefix parse function");
        return;
      end if;
- E2: while Tok(i + 1) = "ADD" do
-       i := i + 2;
-       if Tok(i) = "RBRACES" then err("expected expression"); return; end if;
- E3:   call parseExpr();
+ E2: while Tok(i + 1) \notin {"RBRACES", "SEMI", "RPAREN"} /\ prec < Prec(Tok(i + 1)) do
+       if Tok(i + 1) \in BinOps then                      \* parseInfixExp
+         i := i + 2;
+         if Tok(i) = "RBRACES" then err("expected expression"); else call parseExpr(Prec(Tok(i - 1))); end if;
+       elsif Tok(i + 1) = "QUESTION" then                 \* parseTernaryExp
+         i := i + 2;
+         call parseExpr(2);
+ E3:     if Tok(i + 1) # "COLON" then
+           err("expected :");
+         else
+           i := i + 2;
+           call parseExpr(1);
+         end if;
+       elsif Tok(i + 1) = "LBRACKET" then                 \* parseIndexExp
+         i := i + 2;
+         call parseExpr(1);
+ E4:     if Tok(i + 1) = "RBRACKET" then i := i + 1; else err("expected ]"); end if;
+       elsif Tok(i + 1) = "DOT" then                      \* parseDotExp, parseCallExp
+         if Tok(i + 2) # "IDENT" then
+           i := i + 1;
+           err("expected identifier");
+         elsif Tok(i + 3) = "LPAREN" then
+           i := i + 3;
+           call parseList("RPAREN");
+         else
+           i := i + 2;
+         end if;
+       elsif Tok(i + 1) \in {"INC", "DEC"} then           \* parsePostfixExp
+         i := i + 1;
+       else
+         goto E5;                                         \* "(" has a precedence but no infix function: the loop returns
+       end if;
      end while;
- E4: return;
+ E5: return;
 end procedure;
 
 \* parseExpressionList(end)
@@ -83,12 +123,12 @@ procedure parseList(closer)
 begin
  L0: if Tok(i + 1) = closer then i := i + 1; return; end if;
  L1: i := i + 1;
-     call parseExpr();
+     call parseExpr(1);
  L2: while Tok(i + 1) = "COMMA" do
        i := i + 1;
        if Tok(i + 1) = closer then goto L4; end if;
  L3:   i := i + 1;
-       call parseExpr();
+       call parseExpr(1);
      end while;
  L4: if Tok(i + 1) = closer then i := i + 1; else err("expected closer"); end if;
  L5: return;
@@ -101,7 +141,7 @@ begin
      if Tok(i) = "RBRACE" then return; end if;
  O1: while Tok(i) # "RBRACE" do
        if Tok(i + 1) = "COLON" then i := i + 2; end if;
- O2:   call parseExpr();
+ O2:   call parseExpr(1);
  O3:   if Tok(i + 1) = "COMMA" then
          i := i + 2;
        elsif DevP2.ObjectNoProgress then
@@ -133,13 +173,13 @@ procedure parseIf()
 begin
  I0: if Tok(i + 1) # "LPAREN" then err("expected ("); return; end if;
  I1: i := i + 2;
-     call parseExpr();
+     call parseExpr(1);
  I2: if Tok(i + 1) # "RPAREN" then err("expected )"); return; end if;
  I3: i := i + 2;
      call parseBlock();
  I4: while Tok(i + 1) = "ELSE_IF" do
        i := i + 3;                        \* move to @elseif, skip it, skip "("
-       call parseExpr();
+       call parseExpr(1);
  I5:   if Tok(i + 1) # "RPAREN" then err("expected )"); return; end if;
  I6:   i := i + 2;
        call parseBlock();
@@ -160,7 +200,7 @@ begin
  C1: i := i + 2;
      if Tok(i + 1) # "IN" then err("expected in"); return; end if;
  C2: i := i + 2;
-     call parseExpr();
+     call parseExpr(1);
  C3: if Tok(i + 1) # "RPAREN" then err("expected )"); return; end if;
  C4: i := i + 2;
      call parseBlock();
@@ -179,7 +219,7 @@ begin
  N1: i := i + 2;
  N1a: if Tok(i + 1) = "COMMA" then
        i := i + 2;
-       call parseExpr();
+       call parseExpr(1);
        return;
      end if;
  N2: if Tok(i + 1) # "RPAREN" then err("expected )"); return; end if;
@@ -195,7 +235,7 @@ begin
  M1: i := i + 2;
  M1a: if Tok(i + 1) = "COMMA" then
        i := i + 2;
-       call parseExpr();
+       call parseExpr(1);
      end if;
  M2: if Tok(i + 1) # "RPAREN" then err("expected )"); return; end if;
  M3: i := i + 1;
@@ -242,10 +282,10 @@ begin
  X0b: if Tok(i) = "IDENT" /\ Tok(i + 1) = "ASSIGN" then
        i := i + 2;
  X0c:  if Tok(i) = "RBRACES" then err("expected expression"); return; end if;
- X0d:  call parseExpr();
+ X0d:  call parseExpr(1);
        return;
      end if;
- X1: call parseExpr();
+ X1: call parseExpr(1);
  X2: if Tok(i + 1) = "RBRACES" then i := i + 1; end if;
  X3: return;
 end procedure;
@@ -260,7 +300,7 @@ begin
  F3: i := i + 1;
  F3a: if Tok(i + 1) # "SEMI" then
         i := i + 1;
-        call parseExpr();
+        call parseExpr(1);
       end if;
  F4: if Tok(i + 1) # "SEMI" then err("expected ;"); return; end if;
  F5: i := i + 1;
@@ -286,7 +326,7 @@ begin
        return;
      elsif kind = "cond" then
        i := i + 2;
-       call parseExpr();
+       call parseExpr(1);
        return;
      else
        i := i + 2;                       \* the name token is taken as it is
@@ -330,13 +370,19 @@ VARIABLES pc, inp, toks, i, errs, nilp, loose, eaten, depth, stack
 (* define statement *)
 Tok(k) == IF k >= 1 /\ k <= Len(toks) THEN toks[k] ELSE "EOF"
 Closers == {"END", "ELSE", "ELSE_IF"}
+Atoms == {"INT", "IDENT", "STR", "FLOAT", "TRUE", "FALSE", "NIL"}
+BinOps == {"ADD", "SUB", "MUL", "DIV", "MOD", "EQ", "NOT_EQ", "LTHAN", "GTHAN", "LTHAN_EQ", "GTHAN_EQ"}
+
+Prec(t) == CASE t = "QUESTION" -> 2 [] t \in {"EQ", "NOT_EQ"} -> 3 [] t \in {"LTHAN", "GTHAN", "LTHAN_EQ", "GTHAN_EQ"} -> 4
+             [] t \in {"ADD", "SUB"} -> 5 [] t \in {"MUL", "DIV", "MOD"} -> 6 [] t = "DOT" -> 7 [] t = "LPAREN" -> 9
+             [] t = "LBRACKET" -> 10 [] t \in {"INC", "DEC"} -> 11 [] OTHER -> 1
 RECURSIVE WsRun(_)
 WsRun(k) == IF Tok(k) = "WS" THEN 1 + WsRun(k + 1) ELSE 0
 
-VARIABLES closer, kind
+VARIABLES prec, closer, kind
 
-vars == << pc, inp, toks, i, errs, nilp, loose, eaten, depth, stack, closer, 
-           kind >>
+vars == << pc, inp, toks, i, errs, nilp, loose, eaten, depth, stack, prec, 
+           closer, kind >>
 
 Init == (* Global variables *)
         /\ inp \in Inputs
@@ -347,6 +393,8 @@ Init == (* Global variables *)
         /\ loose = 0
         /\ eaten = 0
         /\ depth = 0
+        (* Procedure parseExpr *)
+        /\ prec = defaultInitValue
         (* Procedure parseList *)
         /\ closer = defaultInitValue
         (* Procedure parseArgDirective *)
@@ -355,77 +403,161 @@ Init == (* Global variables *)
         /\ pc = "P0"
 
 E0 == /\ pc = "E0"
-      /\ IF Tok(i) \in {"INT", "IDENT", "STR"}
+      /\ IF Tok(i) \in Atoms
             THEN /\ TRUE
                  /\ pc' = "E2"
-                 /\ UNCHANGED << i, errs, stack, closer >>
-            ELSE /\ IF Tok(i) = "LPAREN"
+                 /\ UNCHANGED << i, errs, stack, prec, closer >>
+            ELSE /\ IF Tok(i) \in {"SUB", "NOT"}
                        THEN /\ i' = i + 1
-                            /\ stack' = << [ procedure |->  "parseExpr",
-                                             pc        |->  "E1" ] >>
-                                         \o stack
+                            /\ /\ prec' = 8
+                               /\ stack' = << [ procedure |->  "parseExpr",
+                                                pc        |->  "E2",
+                                                prec      |->  prec ] >>
+                                            \o stack
                             /\ pc' = "E0"
                             /\ UNCHANGED << errs, closer >>
-                       ELSE /\ IF Tok(i) = "LBRACKET"
-                                  THEN /\ /\ closer' = "RBRACKET"
-                                          /\ stack' = << [ procedure |->  "parseList",
-                                                           pc        |->  "E2",
-                                                           closer    |->  closer ] >>
+                       ELSE /\ IF Tok(i) = "LPAREN"
+                                  THEN /\ i' = i + 1
+                                       /\ /\ prec' = 1
+                                          /\ stack' = << [ procedure |->  "parseExpr",
+                                                           pc        |->  "E1",
+                                                           prec      |->  prec ] >>
                                                        \o stack
-                                       /\ pc' = "L0"
-                                       /\ errs' = errs
-                                  ELSE /\ IF Tok(i) = "LBRACE"
-                                             THEN /\ stack' = << [ procedure |->  "parseObject",
-                                                                   pc        |->  "E2" ] >>
-                                                               \o stack
-                                                  /\ pc' = "O0"
-                                                  /\ errs' = errs
-                                             ELSE /\ errs' = Append(errs, "no prefix parse function")
-                                                  /\ pc' = Head(stack).pc
-                                                  /\ stack' = Tail(stack)
-                                       /\ UNCHANGED closer
-                            /\ i' = i
+                                       /\ pc' = "E0"
+                                       /\ UNCHANGED << errs, closer >>
+                                  ELSE /\ IF Tok(i) = "LBRACKET"
+                                             THEN /\ /\ closer' = "RBRACKET"
+                                                     /\ stack' = << [ procedure |->  "parseList",
+                                                                      pc        |->  "E2",
+                                                                      closer    |->  closer ] >>
+                                                                  \o stack
+                                                  /\ pc' = "L0"
+                                                  /\ UNCHANGED << errs, prec >>
+                                             ELSE /\ IF Tok(i) = "LBRACE"
+                                                        THEN /\ stack' = << [ procedure |->  "parseObject",
+                                                                              pc        |->  "E2" ] >>
+                                                                          \o stack
+                                                             /\ pc' = "O0"
+                                                             /\ UNCHANGED << errs, 
+                                                                             prec >>
+                                                        ELSE /\ errs' = Append(errs, "no prefix parse function")
+                                                             /\ pc' = Head(stack).pc
+                                                             /\ prec' = Head(stack).prec
+                                                             /\ stack' = Tail(stack)
+                                                  /\ UNCHANGED closer
+                                       /\ i' = i
       /\ UNCHANGED << inp, toks, nilp, loose, eaten, depth, kind >>
 
 E1 == /\ pc = "E1"
       /\ IF Tok(i + 1) = "RPAREN"
             THEN /\ i' = i + 1
-                 /\ pc' = "E2"
-                 /\ UNCHANGED << errs, stack >>
+                 /\ errs' = errs
             ELSE /\ errs' = Append(errs, "expected )")
-                 /\ pc' = Head(stack).pc
-                 /\ stack' = Tail(stack)
                  /\ i' = i
-      /\ UNCHANGED << inp, toks, nilp, loose, eaten, depth, closer, kind >>
+      /\ pc' = "E2"
+      /\ UNCHANGED << inp, toks, nilp, loose, eaten, depth, stack, prec, 
+                      closer, kind >>
 
 E2 == /\ pc = "E2"
-      /\ IF Tok(i + 1) = "ADD"
-            THEN /\ i' = i + 2
-                 /\ IF Tok(i') = "RBRACES"
-                       THEN /\ errs' = Append(errs, "expected expression")
-                            /\ pc' = Head(stack).pc
-                            /\ stack' = Tail(stack)
-                       ELSE /\ pc' = "E3"
-                            /\ UNCHANGED << errs, stack >>
-            ELSE /\ pc' = "E4"
-                 /\ UNCHANGED << i, errs, stack >>
-      /\ UNCHANGED << inp, toks, nilp, loose, eaten, depth, closer, kind >>
+      /\ IF Tok(i + 1) \notin {"RBRACES", "SEMI", "RPAREN"} /\ prec < Prec(Tok(i + 1))
+            THEN /\ IF Tok(i + 1) \in BinOps
+                       THEN /\ i' = i + 2
+                            /\ IF Tok(i') = "RBRACES"
+                                  THEN /\ errs' = Append(errs, "expected expression")
+                                       /\ pc' = "E2"
+                                       /\ UNCHANGED << stack, prec >>
+                                  ELSE /\ /\ prec' = Prec(Tok(i' - 1))
+                                          /\ stack' = << [ procedure |->  "parseExpr",
+                                                           pc        |->  "E2",
+                                                           prec      |->  prec ] >>
+                                                       \o stack
+                                       /\ pc' = "E0"
+                                       /\ errs' = errs
+                            /\ UNCHANGED closer
+                       ELSE /\ IF Tok(i + 1) = "QUESTION"
+                                  THEN /\ i' = i + 2
+                                       /\ /\ prec' = 2
+                                          /\ stack' = << [ procedure |->  "parseExpr",
+                                                           pc        |->  "E3",
+                                                           prec      |->  prec ] >>
+                                                       \o stack
+                                       /\ pc' = "E0"
+                                       /\ UNCHANGED << errs, closer >>
+                                  ELSE /\ IF Tok(i + 1) = "LBRACKET"
+                                             THEN /\ i' = i + 2
+                                                  /\ /\ prec' = 1
+                                                     /\ stack' = << [ procedure |->  "parseExpr",
+                                                                      pc        |->  "E4",
+                                                                      prec      |->  prec ] >>
+                                                                  \o stack
+                                                  /\ pc' = "E0"
+                                                  /\ UNCHANGED << errs, closer >>
+                                             ELSE /\ IF Tok(i + 1) = "DOT"
+                                                        THEN /\ IF Tok(i + 2) # "IDENT"
+                                                                   THEN /\ i' = i + 1
+                                                                        /\ errs' = Append(errs, "expected identifier")
+                                                                        /\ pc' = "E2"
+                                                                        /\ UNCHANGED << stack, 
+                                                                                        closer >>
+                                                                   ELSE /\ IF Tok(i + 3) = "LPAREN"
+                                                                              THEN /\ i' = i + 3
+                                                                                   /\ /\ closer' = "RPAREN"
+                                                                                      /\ stack' = << [ procedure |->  "parseList",
+                                                                                                       pc        |->  "E2",
+                                                                                                       closer    |->  closer ] >>
+                                                                                                   \o stack
+                                                                                   /\ pc' = "L0"
+                                                                              ELSE /\ i' = i + 2
+                                                                                   /\ pc' = "E2"
+                                                                                   /\ UNCHANGED << stack, 
+                                                                                                   closer >>
+                                                                        /\ errs' = errs
+                                                        ELSE /\ IF Tok(i + 1) \in {"INC", "DEC"}
+                                                                   THEN /\ i' = i + 1
+                                                                        /\ pc' = "E2"
+                                                                   ELSE /\ pc' = "E5"
+                                                                        /\ i' = i
+                                                             /\ UNCHANGED << errs, 
+                                                                             stack, 
+                                                                             closer >>
+                                                  /\ prec' = prec
+            ELSE /\ pc' = "E5"
+                 /\ UNCHANGED << i, errs, stack, prec, closer >>
+      /\ UNCHANGED << inp, toks, nilp, loose, eaten, depth, kind >>
 
 E3 == /\ pc = "E3"
-      /\ stack' = << [ procedure |->  "parseExpr",
-                       pc        |->  "E2" ] >>
-                   \o stack
-      /\ pc' = "E0"
-      /\ UNCHANGED << inp, toks, i, errs, nilp, loose, eaten, depth, closer, 
-                      kind >>
+      /\ IF Tok(i + 1) # "COLON"
+            THEN /\ errs' = Append(errs, "expected :")
+                 /\ pc' = "E2"
+                 /\ UNCHANGED << i, stack, prec >>
+            ELSE /\ i' = i + 2
+                 /\ /\ prec' = 1
+                    /\ stack' = << [ procedure |->  "parseExpr",
+                                     pc        |->  "E2",
+                                     prec      |->  prec ] >>
+                                 \o stack
+                 /\ pc' = "E0"
+                 /\ errs' = errs
+      /\ UNCHANGED << inp, toks, nilp, loose, eaten, depth, closer, kind >>
 
 E4 == /\ pc = "E4"
+      /\ IF Tok(i + 1) = "RBRACKET"
+            THEN /\ i' = i + 1
+                 /\ errs' = errs
+            ELSE /\ errs' = Append(errs, "expected ]")
+                 /\ i' = i
+      /\ pc' = "E2"
+      /\ UNCHANGED << inp, toks, nilp, loose, eaten, depth, stack, prec, 
+                      closer, kind >>
+
+E5 == /\ pc = "E5"
       /\ pc' = Head(stack).pc
+      /\ prec' = Head(stack).prec
       /\ stack' = Tail(stack)
       /\ UNCHANGED << inp, toks, i, errs, nilp, loose, eaten, depth, closer, 
                       kind >>
 
-parseExpr == E0 \/ E1 \/ E2 \/ E3 \/ E4
+parseExpr == E0 \/ E1 \/ E2 \/ E3 \/ E4 \/ E5
 
 L0 == /\ pc = "L0"
       /\ IF Tok(i + 1) = closer
@@ -435,13 +567,15 @@ L0 == /\ pc = "L0"
                  /\ stack' = Tail(stack)
             ELSE /\ pc' = "L1"
                  /\ UNCHANGED << i, stack, closer >>
-      /\ UNCHANGED << inp, toks, errs, nilp, loose, eaten, depth, kind >>
+      /\ UNCHANGED << inp, toks, errs, nilp, loose, eaten, depth, prec, kind >>
 
 L1 == /\ pc = "L1"
       /\ i' = i + 1
-      /\ stack' = << [ procedure |->  "parseExpr",
-                       pc        |->  "L2" ] >>
-                   \o stack
+      /\ /\ prec' = 1
+         /\ stack' = << [ procedure |->  "parseExpr",
+                          pc        |->  "L2",
+                          prec      |->  prec ] >>
+                      \o stack
       /\ pc' = "E0"
       /\ UNCHANGED << inp, toks, errs, nilp, loose, eaten, depth, closer, kind >>
 
@@ -453,14 +587,16 @@ L2 == /\ pc = "L2"
                        ELSE /\ pc' = "L3"
             ELSE /\ pc' = "L4"
                  /\ i' = i
-      /\ UNCHANGED << inp, toks, errs, nilp, loose, eaten, depth, stack, 
+      /\ UNCHANGED << inp, toks, errs, nilp, loose, eaten, depth, stack, prec, 
                       closer, kind >>
 
 L3 == /\ pc = "L3"
       /\ i' = i + 1
-      /\ stack' = << [ procedure |->  "parseExpr",
-                       pc        |->  "L2" ] >>
-                   \o stack
+      /\ /\ prec' = 1
+         /\ stack' = << [ procedure |->  "parseExpr",
+                          pc        |->  "L2",
+                          prec      |->  prec ] >>
+                      \o stack
       /\ pc' = "E0"
       /\ UNCHANGED << inp, toks, errs, nilp, loose, eaten, depth, closer, kind >>
 
@@ -471,14 +607,15 @@ L4 == /\ pc = "L4"
             ELSE /\ errs' = Append(errs, "expected closer")
                  /\ i' = i
       /\ pc' = "L5"
-      /\ UNCHANGED << inp, toks, nilp, loose, eaten, depth, stack, closer, 
-                      kind >>
+      /\ UNCHANGED << inp, toks, nilp, loose, eaten, depth, stack, prec, 
+                      closer, kind >>
 
 L5 == /\ pc = "L5"
       /\ pc' = Head(stack).pc
       /\ closer' = Head(stack).closer
       /\ stack' = Tail(stack)
-      /\ UNCHANGED << inp, toks, i, errs, nilp, loose, eaten, depth, kind >>
+      /\ UNCHANGED << inp, toks, i, errs, nilp, loose, eaten, depth, prec, 
+                      kind >>
 
 parseList == L0 \/ L1 \/ L2 \/ L3 \/ L4 \/ L5
 
@@ -489,7 +626,8 @@ O0 == /\ pc = "O0"
                  /\ stack' = Tail(stack)
             ELSE /\ pc' = "O1"
                  /\ stack' = stack
-      /\ UNCHANGED << inp, toks, errs, nilp, loose, eaten, depth, closer, kind >>
+      /\ UNCHANGED << inp, toks, errs, nilp, loose, eaten, depth, prec, closer, 
+                      kind >>
 
 O1 == /\ pc = "O1"
       /\ IF Tok(i) # "RBRACE"
@@ -500,13 +638,15 @@ O1 == /\ pc = "O1"
                  /\ pc' = "O2"
             ELSE /\ pc' = "O4"
                  /\ i' = i
-      /\ UNCHANGED << inp, toks, errs, nilp, loose, eaten, depth, stack, 
+      /\ UNCHANGED << inp, toks, errs, nilp, loose, eaten, depth, stack, prec, 
                       closer, kind >>
 
 O2 == /\ pc = "O2"
-      /\ stack' = << [ procedure |->  "parseExpr",
-                       pc        |->  "O3" ] >>
-                   \o stack
+      /\ /\ prec' = 1
+         /\ stack' = << [ procedure |->  "parseExpr",
+                          pc        |->  "O3",
+                          prec      |->  prec ] >>
+                      \o stack
       /\ pc' = "E0"
       /\ UNCHANGED << inp, toks, i, errs, nilp, loose, eaten, depth, closer, 
                       kind >>
@@ -531,13 +671,13 @@ O3 == /\ pc = "O3"
                                        /\ i' = i
                             /\ pc' = Head(stack).pc
                             /\ stack' = Tail(stack)
-      /\ UNCHANGED << inp, toks, nilp, loose, eaten, depth, closer, kind >>
+      /\ UNCHANGED << inp, toks, nilp, loose, eaten, depth, prec, closer, kind >>
 
 O4 == /\ pc = "O4"
       /\ pc' = Head(stack).pc
       /\ stack' = Tail(stack)
-      /\ UNCHANGED << inp, toks, i, errs, nilp, loose, eaten, depth, closer, 
-                      kind >>
+      /\ UNCHANGED << inp, toks, i, errs, nilp, loose, eaten, depth, prec, 
+                      closer, kind >>
 
 parseObject == O0 \/ O1 \/ O2 \/ O3 \/ O4
 
@@ -548,7 +688,8 @@ B0 == /\ pc = "B0"
                  /\ stack' = Tail(stack)
             ELSE /\ pc' = "B1"
                  /\ UNCHANGED << i, stack >>
-      /\ UNCHANGED << inp, toks, errs, nilp, loose, eaten, depth, closer, kind >>
+      /\ UNCHANGED << inp, toks, errs, nilp, loose, eaten, depth, prec, closer, 
+                      kind >>
 
 B1 == /\ pc = "B1"
       /\ IF Tok(i) # "END" /\ (Tok(i) # "EOF" \/ DevP2.BlockIgnoresEOF)
@@ -558,8 +699,8 @@ B1 == /\ pc = "B1"
                  /\ pc' = "S0"
             ELSE /\ pc' = "B5"
                  /\ stack' = stack
-      /\ UNCHANGED << inp, toks, i, errs, nilp, loose, eaten, depth, closer, 
-                      kind >>
+      /\ UNCHANGED << inp, toks, i, errs, nilp, loose, eaten, depth, prec, 
+                      closer, kind >>
 
 B2 == /\ pc = "B2"
       /\ IF Tok(i) = "ILLEGAL"
@@ -568,19 +709,20 @@ B2 == /\ pc = "B2"
                  /\ stack' = Tail(stack)
             ELSE /\ pc' = "B3"
                  /\ UNCHANGED << errs, stack >>
-      /\ UNCHANGED << inp, toks, i, nilp, loose, eaten, depth, closer, kind >>
+      /\ UNCHANGED << inp, toks, i, nilp, loose, eaten, depth, prec, closer, 
+                      kind >>
 
 B3 == /\ pc = "B3"
       /\ IF Tok(i + 1) \in Closers
             THEN /\ pc' = "B5"
             ELSE /\ pc' = "B4"
       /\ UNCHANGED << inp, toks, i, errs, nilp, loose, eaten, depth, stack, 
-                      closer, kind >>
+                      prec, closer, kind >>
 
 B4 == /\ pc = "B4"
       /\ i' = i + 1
       /\ pc' = "B1"
-      /\ UNCHANGED << inp, toks, errs, nilp, loose, eaten, depth, stack, 
+      /\ UNCHANGED << inp, toks, errs, nilp, loose, eaten, depth, stack, prec, 
                       closer, kind >>
 
 B5 == /\ pc = "B5"
@@ -589,14 +731,14 @@ B5 == /\ pc = "B5"
             ELSE /\ TRUE
                  /\ errs' = errs
       /\ pc' = "B6"
-      /\ UNCHANGED << inp, toks, i, nilp, loose, eaten, depth, stack, closer, 
-                      kind >>
+      /\ UNCHANGED << inp, toks, i, nilp, loose, eaten, depth, stack, prec, 
+                      closer, kind >>
 
 B6 == /\ pc = "B6"
       /\ pc' = Head(stack).pc
       /\ stack' = Tail(stack)
-      /\ UNCHANGED << inp, toks, i, errs, nilp, loose, eaten, depth, closer, 
-                      kind >>
+      /\ UNCHANGED << inp, toks, i, errs, nilp, loose, eaten, depth, prec, 
+                      closer, kind >>
 
 parseBlock == B0 \/ B1 \/ B2 \/ B3 \/ B4 \/ B5 \/ B6
 
@@ -607,13 +749,16 @@ I0 == /\ pc = "I0"
                  /\ stack' = Tail(stack)
             ELSE /\ pc' = "I1"
                  /\ UNCHANGED << errs, stack >>
-      /\ UNCHANGED << inp, toks, i, nilp, loose, eaten, depth, closer, kind >>
+      /\ UNCHANGED << inp, toks, i, nilp, loose, eaten, depth, prec, closer, 
+                      kind >>
 
 I1 == /\ pc = "I1"
       /\ i' = i + 2
-      /\ stack' = << [ procedure |->  "parseExpr",
-                       pc        |->  "I2" ] >>
-                   \o stack
+      /\ /\ prec' = 1
+         /\ stack' = << [ procedure |->  "parseExpr",
+                          pc        |->  "I2",
+                          prec      |->  prec ] >>
+                      \o stack
       /\ pc' = "E0"
       /\ UNCHANGED << inp, toks, errs, nilp, loose, eaten, depth, closer, kind >>
 
@@ -624,7 +769,8 @@ I2 == /\ pc = "I2"
                  /\ stack' = Tail(stack)
             ELSE /\ pc' = "I3"
                  /\ UNCHANGED << errs, stack >>
-      /\ UNCHANGED << inp, toks, i, nilp, loose, eaten, depth, closer, kind >>
+      /\ UNCHANGED << inp, toks, i, nilp, loose, eaten, depth, prec, closer, 
+                      kind >>
 
 I3 == /\ pc = "I3"
       /\ i' = i + 2
@@ -632,17 +778,20 @@ I3 == /\ pc = "I3"
                        pc        |->  "I4" ] >>
                    \o stack
       /\ pc' = "B0"
-      /\ UNCHANGED << inp, toks, errs, nilp, loose, eaten, depth, closer, kind >>
+      /\ UNCHANGED << inp, toks, errs, nilp, loose, eaten, depth, prec, closer, 
+                      kind >>
 
 I4 == /\ pc = "I4"
       /\ IF Tok(i + 1) = "ELSE_IF"
             THEN /\ i' = i + 3
-                 /\ stack' = << [ procedure |->  "parseExpr",
-                                  pc        |->  "I5" ] >>
-                              \o stack
+                 /\ /\ prec' = 1
+                    /\ stack' = << [ procedure |->  "parseExpr",
+                                     pc        |->  "I5",
+                                     prec      |->  prec ] >>
+                                 \o stack
                  /\ pc' = "E0"
             ELSE /\ pc' = "I7"
-                 /\ UNCHANGED << i, stack >>
+                 /\ UNCHANGED << i, stack, prec >>
       /\ UNCHANGED << inp, toks, errs, nilp, loose, eaten, depth, closer, kind >>
 
 I5 == /\ pc = "I5"
@@ -652,7 +801,8 @@ I5 == /\ pc = "I5"
                  /\ stack' = Tail(stack)
             ELSE /\ pc' = "I6"
                  /\ UNCHANGED << errs, stack >>
-      /\ UNCHANGED << inp, toks, i, nilp, loose, eaten, depth, closer, kind >>
+      /\ UNCHANGED << inp, toks, i, nilp, loose, eaten, depth, prec, closer, 
+                      kind >>
 
 I6 == /\ pc = "I6"
       /\ i' = i + 2
@@ -660,7 +810,8 @@ I6 == /\ pc = "I6"
                        pc        |->  "I4" ] >>
                    \o stack
       /\ pc' = "B0"
-      /\ UNCHANGED << inp, toks, errs, nilp, loose, eaten, depth, closer, kind >>
+      /\ UNCHANGED << inp, toks, errs, nilp, loose, eaten, depth, prec, closer, 
+                      kind >>
 
 I7 == /\ pc = "I7"
       /\ IF Tok(i + 1) = "ELSE"
@@ -671,7 +822,8 @@ I7 == /\ pc = "I7"
                  /\ pc' = "B0"
             ELSE /\ pc' = "I9"
                  /\ UNCHANGED << i, stack >>
-      /\ UNCHANGED << inp, toks, errs, nilp, loose, eaten, depth, closer, kind >>
+      /\ UNCHANGED << inp, toks, errs, nilp, loose, eaten, depth, prec, closer, 
+                      kind >>
 
 I8 == /\ pc = "I8"
       /\ IF Tok(i + 1) = "ELSE_IF"
@@ -680,7 +832,8 @@ I8 == /\ pc = "I8"
                  /\ stack' = Tail(stack)
             ELSE /\ pc' = "I9"
                  /\ UNCHANGED << errs, stack >>
-      /\ UNCHANGED << inp, toks, i, nilp, loose, eaten, depth, closer, kind >>
+      /\ UNCHANGED << inp, toks, i, nilp, loose, eaten, depth, prec, closer, 
+                      kind >>
 
 I9 == /\ pc = "I9"
       /\ IF Tok(i + 1) = "END"
@@ -689,14 +842,14 @@ I9 == /\ pc = "I9"
             ELSE /\ errs' = Append(errs, "expected @end")
                  /\ i' = i
       /\ pc' = "IA"
-      /\ UNCHANGED << inp, toks, nilp, loose, eaten, depth, stack, closer, 
-                      kind >>
+      /\ UNCHANGED << inp, toks, nilp, loose, eaten, depth, stack, prec, 
+                      closer, kind >>
 
 IA == /\ pc = "IA"
       /\ pc' = Head(stack).pc
       /\ stack' = Tail(stack)
-      /\ UNCHANGED << inp, toks, i, errs, nilp, loose, eaten, depth, closer, 
-                      kind >>
+      /\ UNCHANGED << inp, toks, i, errs, nilp, loose, eaten, depth, prec, 
+                      closer, kind >>
 
 parseIf == I0 \/ I1 \/ I2 \/ I3 \/ I4 \/ I5 \/ I6 \/ I7 \/ I8 \/ I9 \/ IA
 
@@ -707,7 +860,8 @@ C0 == /\ pc = "C0"
                  /\ stack' = Tail(stack)
             ELSE /\ pc' = "C1"
                  /\ UNCHANGED << errs, stack >>
-      /\ UNCHANGED << inp, toks, i, nilp, loose, eaten, depth, closer, kind >>
+      /\ UNCHANGED << inp, toks, i, nilp, loose, eaten, depth, prec, closer, 
+                      kind >>
 
 C1 == /\ pc = "C1"
       /\ i' = i + 2
@@ -717,13 +871,15 @@ C1 == /\ pc = "C1"
                  /\ stack' = Tail(stack)
             ELSE /\ pc' = "C2"
                  /\ UNCHANGED << errs, stack >>
-      /\ UNCHANGED << inp, toks, nilp, loose, eaten, depth, closer, kind >>
+      /\ UNCHANGED << inp, toks, nilp, loose, eaten, depth, prec, closer, kind >>
 
 C2 == /\ pc = "C2"
       /\ i' = i + 2
-      /\ stack' = << [ procedure |->  "parseExpr",
-                       pc        |->  "C3" ] >>
-                   \o stack
+      /\ /\ prec' = 1
+         /\ stack' = << [ procedure |->  "parseExpr",
+                          pc        |->  "C3",
+                          prec      |->  prec ] >>
+                      \o stack
       /\ pc' = "E0"
       /\ UNCHANGED << inp, toks, errs, nilp, loose, eaten, depth, closer, kind >>
 
@@ -734,7 +890,8 @@ C3 == /\ pc = "C3"
                  /\ stack' = Tail(stack)
             ELSE /\ pc' = "C4"
                  /\ UNCHANGED << errs, stack >>
-      /\ UNCHANGED << inp, toks, i, nilp, loose, eaten, depth, closer, kind >>
+      /\ UNCHANGED << inp, toks, i, nilp, loose, eaten, depth, prec, closer, 
+                      kind >>
 
 C4 == /\ pc = "C4"
       /\ i' = i + 2
@@ -742,7 +899,8 @@ C4 == /\ pc = "C4"
                        pc        |->  "C5" ] >>
                    \o stack
       /\ pc' = "B0"
-      /\ UNCHANGED << inp, toks, errs, nilp, loose, eaten, depth, closer, kind >>
+      /\ UNCHANGED << inp, toks, errs, nilp, loose, eaten, depth, prec, closer, 
+                      kind >>
 
 C5 == /\ pc = "C5"
       /\ IF Tok(i + 1) = "ELSE"
@@ -753,7 +911,8 @@ C5 == /\ pc = "C5"
                  /\ pc' = "B0"
             ELSE /\ pc' = "C6"
                  /\ UNCHANGED << i, stack >>
-      /\ UNCHANGED << inp, toks, errs, nilp, loose, eaten, depth, closer, kind >>
+      /\ UNCHANGED << inp, toks, errs, nilp, loose, eaten, depth, prec, closer, 
+                      kind >>
 
 C6 == /\ pc = "C6"
       /\ IF Tok(i + 1) = "END"
@@ -762,14 +921,14 @@ C6 == /\ pc = "C6"
             ELSE /\ errs' = Append(errs, "expected @end")
                  /\ i' = i
       /\ pc' = "C7"
-      /\ UNCHANGED << inp, toks, nilp, loose, eaten, depth, stack, closer, 
-                      kind >>
+      /\ UNCHANGED << inp, toks, nilp, loose, eaten, depth, stack, prec, 
+                      closer, kind >>
 
 C7 == /\ pc = "C7"
       /\ pc' = Head(stack).pc
       /\ stack' = Tail(stack)
-      /\ UNCHANGED << inp, toks, i, errs, nilp, loose, eaten, depth, closer, 
-                      kind >>
+      /\ UNCHANGED << inp, toks, i, errs, nilp, loose, eaten, depth, prec, 
+                      closer, kind >>
 
 parseEach == C0 \/ C1 \/ C2 \/ C3 \/ C4 \/ C5 \/ C6 \/ C7
 
@@ -780,23 +939,26 @@ N0 == /\ pc = "N0"
                  /\ stack' = Tail(stack)
             ELSE /\ pc' = "N1"
                  /\ UNCHANGED << errs, stack >>
-      /\ UNCHANGED << inp, toks, i, nilp, loose, eaten, depth, closer, kind >>
+      /\ UNCHANGED << inp, toks, i, nilp, loose, eaten, depth, prec, closer, 
+                      kind >>
 
 N1 == /\ pc = "N1"
       /\ i' = i + 2
       /\ pc' = "N1a"
-      /\ UNCHANGED << inp, toks, errs, nilp, loose, eaten, depth, stack, 
+      /\ UNCHANGED << inp, toks, errs, nilp, loose, eaten, depth, stack, prec, 
                       closer, kind >>
 
 N1a == /\ pc = "N1a"
        /\ IF Tok(i + 1) = "COMMA"
              THEN /\ i' = i + 2
-                  /\ stack' = << [ procedure |->  "parseExpr",
-                                   pc        |->  Head(stack).pc ] >>
-                               \o Tail(stack)
+                  /\ /\ prec' = 1
+                     /\ stack' = << [ procedure |->  "parseExpr",
+                                      pc        |->  Head(stack).pc,
+                                      prec      |->  prec ] >>
+                                  \o Tail(stack)
                   /\ pc' = "E0"
              ELSE /\ pc' = "N2"
-                  /\ UNCHANGED << i, stack >>
+                  /\ UNCHANGED << i, stack, prec >>
        /\ UNCHANGED << inp, toks, errs, nilp, loose, eaten, depth, closer, 
                        kind >>
 
@@ -807,7 +969,8 @@ N2 == /\ pc = "N2"
                  /\ stack' = Tail(stack)
             ELSE /\ pc' = "N3"
                  /\ UNCHANGED << errs, stack >>
-      /\ UNCHANGED << inp, toks, i, nilp, loose, eaten, depth, closer, kind >>
+      /\ UNCHANGED << inp, toks, i, nilp, loose, eaten, depth, prec, closer, 
+                      kind >>
 
 N3 == /\ pc = "N3"
       /\ i' = i + 2
@@ -815,13 +978,14 @@ N3 == /\ pc = "N3"
                        pc        |->  "N4" ] >>
                    \o stack
       /\ pc' = "B0"
-      /\ UNCHANGED << inp, toks, errs, nilp, loose, eaten, depth, closer, kind >>
+      /\ UNCHANGED << inp, toks, errs, nilp, loose, eaten, depth, prec, closer, 
+                      kind >>
 
 N4 == /\ pc = "N4"
       /\ pc' = Head(stack).pc
       /\ stack' = Tail(stack)
-      /\ UNCHANGED << inp, toks, i, errs, nilp, loose, eaten, depth, closer, 
-                      kind >>
+      /\ UNCHANGED << inp, toks, i, errs, nilp, loose, eaten, depth, prec, 
+                      closer, kind >>
 
 parseInsert == N0 \/ N1 \/ N1a \/ N2 \/ N3 \/ N4
 
@@ -832,23 +996,26 @@ M0 == /\ pc = "M0"
                  /\ stack' = Tail(stack)
             ELSE /\ pc' = "M1"
                  /\ UNCHANGED << errs, stack >>
-      /\ UNCHANGED << inp, toks, i, nilp, loose, eaten, depth, closer, kind >>
+      /\ UNCHANGED << inp, toks, i, nilp, loose, eaten, depth, prec, closer, 
+                      kind >>
 
 M1 == /\ pc = "M1"
       /\ i' = i + 2
       /\ pc' = "M1a"
-      /\ UNCHANGED << inp, toks, errs, nilp, loose, eaten, depth, stack, 
+      /\ UNCHANGED << inp, toks, errs, nilp, loose, eaten, depth, stack, prec, 
                       closer, kind >>
 
 M1a == /\ pc = "M1a"
        /\ IF Tok(i + 1) = "COMMA"
              THEN /\ i' = i + 2
-                  /\ stack' = << [ procedure |->  "parseExpr",
-                                   pc        |->  "M2" ] >>
-                               \o stack
+                  /\ /\ prec' = 1
+                     /\ stack' = << [ procedure |->  "parseExpr",
+                                      pc        |->  "M2",
+                                      prec      |->  prec ] >>
+                                  \o stack
                   /\ pc' = "E0"
              ELSE /\ pc' = "M2"
-                  /\ UNCHANGED << i, stack >>
+                  /\ UNCHANGED << i, stack, prec >>
        /\ UNCHANGED << inp, toks, errs, nilp, loose, eaten, depth, closer, 
                        kind >>
 
@@ -859,12 +1026,13 @@ M2 == /\ pc = "M2"
                  /\ stack' = Tail(stack)
             ELSE /\ pc' = "M3"
                  /\ UNCHANGED << errs, stack >>
-      /\ UNCHANGED << inp, toks, i, nilp, loose, eaten, depth, closer, kind >>
+      /\ UNCHANGED << inp, toks, i, nilp, loose, eaten, depth, prec, closer, 
+                      kind >>
 
 M3 == /\ pc = "M3"
       /\ i' = i + 1
       /\ pc' = "M3a"
-      /\ UNCHANGED << inp, toks, errs, nilp, loose, eaten, depth, stack, 
+      /\ UNCHANGED << inp, toks, errs, nilp, loose, eaten, depth, stack, prec, 
                       closer, kind >>
 
 M3a == /\ pc = "M3a"
@@ -894,13 +1062,13 @@ M3a == /\ pc = "M3a"
                              /\ stack' = Tail(stack)
                              /\ i' = i
                   /\ eaten' = eaten
-       /\ UNCHANGED << inp, toks, errs, nilp, loose, depth, closer, kind >>
+       /\ UNCHANGED << inp, toks, errs, nilp, loose, depth, prec, closer, kind >>
 
 M3b == /\ pc = "M3b"
        /\ depth' = depth + 1
        /\ pc' = "M4"
-       /\ UNCHANGED << inp, toks, i, errs, nilp, loose, eaten, stack, closer, 
-                       kind >>
+       /\ UNCHANGED << inp, toks, i, errs, nilp, loose, eaten, stack, prec, 
+                       closer, kind >>
 
 M4 == /\ pc = "M4"
       /\ IF Tok(i) = "SLOT"
@@ -916,15 +1084,15 @@ M4 == /\ pc = "M4"
                             /\ UNCHANGED << i, errs, stack >>
             ELSE /\ pc' = "M9"
                  /\ UNCHANGED << i, errs, stack >>
-      /\ UNCHANGED << inp, toks, nilp, loose, eaten, depth, closer, kind >>
+      /\ UNCHANGED << inp, toks, nilp, loose, eaten, depth, prec, closer, kind >>
 
 M6 == /\ pc = "M6"
       /\ stack' = << [ procedure |->  "parseBlock",
                        pc        |->  "M7" ] >>
                    \o stack
       /\ pc' = "B0"
-      /\ UNCHANGED << inp, toks, i, errs, nilp, loose, eaten, depth, closer, 
-                      kind >>
+      /\ UNCHANGED << inp, toks, i, errs, nilp, loose, eaten, depth, prec, 
+                      closer, kind >>
 
 M7 == /\ pc = "M7"
       /\ IF DevP2.SlotsBlind
@@ -939,7 +1107,7 @@ M7 == /\ pc = "M7"
                             /\ pc' = Head(stack).pc
                             /\ stack' = Tail(stack)
                             /\ i' = i
-      /\ UNCHANGED << inp, toks, nilp, loose, eaten, depth, closer, kind >>
+      /\ UNCHANGED << inp, toks, nilp, loose, eaten, depth, prec, closer, kind >>
 
 M8 == /\ pc = "M8"
       /\ IF Tok(i) \in {"HTML", "WS"}
@@ -947,13 +1115,13 @@ M8 == /\ pc = "M8"
                  /\ pc' = "M8"
             ELSE /\ pc' = "M4"
                  /\ i' = i
-      /\ UNCHANGED << inp, toks, errs, nilp, loose, eaten, depth, stack, 
+      /\ UNCHANGED << inp, toks, errs, nilp, loose, eaten, depth, stack, prec, 
                       closer, kind >>
 
 M5 == /\ pc = "M5"
       /\ i' = i + 2
       /\ pc' = "M6"
-      /\ UNCHANGED << inp, toks, errs, nilp, loose, eaten, depth, stack, 
+      /\ UNCHANGED << inp, toks, errs, nilp, loose, eaten, depth, stack, prec, 
                       closer, kind >>
 
 M9 == /\ pc = "M9"
@@ -963,13 +1131,14 @@ M9 == /\ pc = "M9"
             ELSE /\ TRUE
                  /\ errs' = errs
       /\ pc' = "M10"
-      /\ UNCHANGED << inp, toks, i, nilp, loose, eaten, stack, closer, kind >>
+      /\ UNCHANGED << inp, toks, i, nilp, loose, eaten, stack, prec, closer, 
+                      kind >>
 
 M10 == /\ pc = "M10"
        /\ pc' = Head(stack).pc
        /\ stack' = Tail(stack)
-       /\ UNCHANGED << inp, toks, i, errs, nilp, loose, eaten, depth, closer, 
-                       kind >>
+       /\ UNCHANGED << inp, toks, i, errs, nilp, loose, eaten, depth, prec, 
+                       closer, kind >>
 
 parseComponent == M0 \/ M1 \/ M1a \/ M2 \/ M3 \/ M3a \/ M3b \/ M4 \/ M6
                      \/ M7 \/ M8 \/ M5 \/ M9 \/ M10
@@ -977,7 +1146,7 @@ parseComponent == M0 \/ M1 \/ M1a \/ M2 \/ M3 \/ M3a \/ M3b \/ M4 \/ M6
 X0 == /\ pc = "X0"
       /\ i' = i + 1
       /\ pc' = "X0a"
-      /\ UNCHANGED << inp, toks, errs, nilp, loose, eaten, depth, stack, 
+      /\ UNCHANGED << inp, toks, errs, nilp, loose, eaten, depth, stack, prec, 
                       closer, kind >>
 
 X0a == /\ pc = "X0a"
@@ -987,7 +1156,8 @@ X0a == /\ pc = "X0a"
                   /\ stack' = Tail(stack)
              ELSE /\ pc' = "X0b"
                   /\ UNCHANGED << errs, stack >>
-       /\ UNCHANGED << inp, toks, i, nilp, loose, eaten, depth, closer, kind >>
+       /\ UNCHANGED << inp, toks, i, nilp, loose, eaten, depth, prec, closer, 
+                       kind >>
 
 X0b == /\ pc = "X0b"
        /\ IF Tok(i) = "IDENT" /\ Tok(i + 1) = "ASSIGN"
@@ -995,7 +1165,7 @@ X0b == /\ pc = "X0b"
                   /\ pc' = "X0c"
              ELSE /\ pc' = "X1"
                   /\ i' = i
-       /\ UNCHANGED << inp, toks, errs, nilp, loose, eaten, depth, stack, 
+       /\ UNCHANGED << inp, toks, errs, nilp, loose, eaten, depth, stack, prec, 
                        closer, kind >>
 
 X0c == /\ pc = "X0c"
@@ -1005,20 +1175,25 @@ X0c == /\ pc = "X0c"
                   /\ stack' = Tail(stack)
              ELSE /\ pc' = "X0d"
                   /\ UNCHANGED << errs, stack >>
-       /\ UNCHANGED << inp, toks, i, nilp, loose, eaten, depth, closer, kind >>
+       /\ UNCHANGED << inp, toks, i, nilp, loose, eaten, depth, prec, closer, 
+                       kind >>
 
 X0d == /\ pc = "X0d"
-       /\ stack' = << [ procedure |->  "parseExpr",
-                        pc        |->  Head(stack).pc ] >>
-                    \o Tail(stack)
+       /\ /\ prec' = 1
+          /\ stack' = << [ procedure |->  "parseExpr",
+                           pc        |->  Head(stack).pc,
+                           prec      |->  prec ] >>
+                       \o Tail(stack)
        /\ pc' = "E0"
        /\ UNCHANGED << inp, toks, i, errs, nilp, loose, eaten, depth, closer, 
                        kind >>
 
 X1 == /\ pc = "X1"
-      /\ stack' = << [ procedure |->  "parseExpr",
-                       pc        |->  "X2" ] >>
-                   \o stack
+      /\ /\ prec' = 1
+         /\ stack' = << [ procedure |->  "parseExpr",
+                          pc        |->  "X2",
+                          prec      |->  prec ] >>
+                      \o stack
       /\ pc' = "E0"
       /\ UNCHANGED << inp, toks, i, errs, nilp, loose, eaten, depth, closer, 
                       kind >>
@@ -1029,14 +1204,14 @@ X2 == /\ pc = "X2"
             ELSE /\ TRUE
                  /\ i' = i
       /\ pc' = "X3"
-      /\ UNCHANGED << inp, toks, errs, nilp, loose, eaten, depth, stack, 
+      /\ UNCHANGED << inp, toks, errs, nilp, loose, eaten, depth, stack, prec, 
                       closer, kind >>
 
 X3 == /\ pc = "X3"
       /\ pc' = Head(stack).pc
       /\ stack' = Tail(stack)
-      /\ UNCHANGED << inp, toks, i, errs, nilp, loose, eaten, depth, closer, 
-                      kind >>
+      /\ UNCHANGED << inp, toks, i, errs, nilp, loose, eaten, depth, prec, 
+                      closer, kind >>
 
 parseEmbedded == X0 \/ X0a \/ X0b \/ X0c \/ X0d \/ X1 \/ X2 \/ X3
 
@@ -1047,12 +1222,13 @@ F0 == /\ pc = "F0"
                  /\ stack' = Tail(stack)
             ELSE /\ pc' = "F1"
                  /\ UNCHANGED << errs, stack >>
-      /\ UNCHANGED << inp, toks, i, nilp, loose, eaten, depth, closer, kind >>
+      /\ UNCHANGED << inp, toks, i, nilp, loose, eaten, depth, prec, closer, 
+                      kind >>
 
 F1 == /\ pc = "F1"
       /\ i' = i + 1
       /\ pc' = "F1a"
-      /\ UNCHANGED << inp, toks, errs, nilp, loose, eaten, depth, stack, 
+      /\ UNCHANGED << inp, toks, errs, nilp, loose, eaten, depth, stack, prec, 
                       closer, kind >>
 
 F1a == /\ pc = "F1a"
@@ -1063,8 +1239,8 @@ F1a == /\ pc = "F1a"
                   /\ pc' = "X0"
              ELSE /\ pc' = "F2"
                   /\ stack' = stack
-       /\ UNCHANGED << inp, toks, i, errs, nilp, loose, eaten, depth, closer, 
-                       kind >>
+       /\ UNCHANGED << inp, toks, i, errs, nilp, loose, eaten, depth, prec, 
+                       closer, kind >>
 
 F2 == /\ pc = "F2"
       /\ IF Tok(i + 1) # "SEMI"
@@ -1073,23 +1249,26 @@ F2 == /\ pc = "F2"
                  /\ stack' = Tail(stack)
             ELSE /\ pc' = "F3"
                  /\ UNCHANGED << errs, stack >>
-      /\ UNCHANGED << inp, toks, i, nilp, loose, eaten, depth, closer, kind >>
+      /\ UNCHANGED << inp, toks, i, nilp, loose, eaten, depth, prec, closer, 
+                      kind >>
 
 F3 == /\ pc = "F3"
       /\ i' = i + 1
       /\ pc' = "F3a"
-      /\ UNCHANGED << inp, toks, errs, nilp, loose, eaten, depth, stack, 
+      /\ UNCHANGED << inp, toks, errs, nilp, loose, eaten, depth, stack, prec, 
                       closer, kind >>
 
 F3a == /\ pc = "F3a"
        /\ IF Tok(i + 1) # "SEMI"
              THEN /\ i' = i + 1
-                  /\ stack' = << [ procedure |->  "parseExpr",
-                                   pc        |->  "F4" ] >>
-                               \o stack
+                  /\ /\ prec' = 1
+                     /\ stack' = << [ procedure |->  "parseExpr",
+                                      pc        |->  "F4",
+                                      prec      |->  prec ] >>
+                                  \o stack
                   /\ pc' = "E0"
              ELSE /\ pc' = "F4"
-                  /\ UNCHANGED << i, stack >>
+                  /\ UNCHANGED << i, stack, prec >>
        /\ UNCHANGED << inp, toks, errs, nilp, loose, eaten, depth, closer, 
                        kind >>
 
@@ -1100,12 +1279,13 @@ F4 == /\ pc = "F4"
                  /\ stack' = Tail(stack)
             ELSE /\ pc' = "F5"
                  /\ UNCHANGED << errs, stack >>
-      /\ UNCHANGED << inp, toks, i, nilp, loose, eaten, depth, closer, kind >>
+      /\ UNCHANGED << inp, toks, i, nilp, loose, eaten, depth, prec, closer, 
+                      kind >>
 
 F5 == /\ pc = "F5"
       /\ i' = i + 1
       /\ pc' = "F5a"
-      /\ UNCHANGED << inp, toks, errs, nilp, loose, eaten, depth, stack, 
+      /\ UNCHANGED << inp, toks, errs, nilp, loose, eaten, depth, stack, prec, 
                       closer, kind >>
 
 F5a == /\ pc = "F5a"
@@ -1116,8 +1296,8 @@ F5a == /\ pc = "F5a"
                   /\ pc' = "X0"
              ELSE /\ pc' = "F6"
                   /\ stack' = stack
-       /\ UNCHANGED << inp, toks, i, errs, nilp, loose, eaten, depth, closer, 
-                       kind >>
+       /\ UNCHANGED << inp, toks, i, errs, nilp, loose, eaten, depth, prec, 
+                       closer, kind >>
 
 F6 == /\ pc = "F6"
       /\ IF Tok(i + 1) # "RPAREN"
@@ -1126,7 +1306,8 @@ F6 == /\ pc = "F6"
                  /\ stack' = Tail(stack)
             ELSE /\ pc' = "F7"
                  /\ UNCHANGED << errs, stack >>
-      /\ UNCHANGED << inp, toks, i, nilp, loose, eaten, depth, closer, kind >>
+      /\ UNCHANGED << inp, toks, i, nilp, loose, eaten, depth, prec, closer, 
+                      kind >>
 
 F7 == /\ pc = "F7"
       /\ i' = i + 2
@@ -1134,7 +1315,8 @@ F7 == /\ pc = "F7"
                        pc        |->  "F8" ] >>
                    \o stack
       /\ pc' = "B0"
-      /\ UNCHANGED << inp, toks, errs, nilp, loose, eaten, depth, closer, kind >>
+      /\ UNCHANGED << inp, toks, errs, nilp, loose, eaten, depth, prec, closer, 
+                      kind >>
 
 F8 == /\ pc = "F8"
       /\ IF Tok(i + 1) = "ELSE"
@@ -1145,7 +1327,8 @@ F8 == /\ pc = "F8"
                  /\ pc' = "B0"
             ELSE /\ pc' = "F9"
                  /\ UNCHANGED << i, stack >>
-      /\ UNCHANGED << inp, toks, errs, nilp, loose, eaten, depth, closer, kind >>
+      /\ UNCHANGED << inp, toks, errs, nilp, loose, eaten, depth, prec, closer, 
+                      kind >>
 
 F9 == /\ pc = "F9"
       /\ IF Tok(i + 1) = "END"
@@ -1154,14 +1337,14 @@ F9 == /\ pc = "F9"
             ELSE /\ errs' = Append(errs, "expected @end")
                  /\ i' = i
       /\ pc' = "FA"
-      /\ UNCHANGED << inp, toks, nilp, loose, eaten, depth, stack, closer, 
-                      kind >>
+      /\ UNCHANGED << inp, toks, nilp, loose, eaten, depth, stack, prec, 
+                      closer, kind >>
 
 FA == /\ pc = "FA"
       /\ pc' = Head(stack).pc
       /\ stack' = Tail(stack)
-      /\ UNCHANGED << inp, toks, i, errs, nilp, loose, eaten, depth, closer, 
-                      kind >>
+      /\ UNCHANGED << inp, toks, i, errs, nilp, loose, eaten, depth, prec, 
+                      closer, kind >>
 
 parseFor == F0 \/ F1 \/ F1a \/ F2 \/ F3 \/ F3a \/ F4 \/ F5 \/ F5a \/ F6
                \/ F7 \/ F8 \/ F9 \/ FA
@@ -1174,7 +1357,7 @@ D0 == /\ pc = "D0"
                  /\ stack' = Tail(stack)
             ELSE /\ pc' = "D1"
                  /\ UNCHANGED << errs, stack, kind >>
-      /\ UNCHANGED << inp, toks, i, nilp, loose, eaten, depth, closer >>
+      /\ UNCHANGED << inp, toks, i, nilp, loose, eaten, depth, prec, closer >>
 
 D1 == /\ pc = "D1"
       /\ IF kind = "dump"
@@ -1185,15 +1368,18 @@ D1 == /\ pc = "D1"
                                      closer    |->  closer ] >>
                                  \o Tail(stack)
                  /\ pc' = "L0"
+                 /\ prec' = prec
             ELSE /\ IF kind = "cond"
                        THEN /\ i' = i + 2
-                            /\ stack' = << [ procedure |->  "parseExpr",
-                                             pc        |->  Head(stack).pc ] >>
-                                         \o Tail(stack)
+                            /\ /\ prec' = 1
+                               /\ stack' = << [ procedure |->  "parseExpr",
+                                                pc        |->  Head(stack).pc,
+                                                prec      |->  prec ] >>
+                                            \o Tail(stack)
                             /\ pc' = "E0"
                        ELSE /\ i' = i + 2
                             /\ pc' = "D2"
-                            /\ stack' = stack
+                            /\ UNCHANGED << stack, prec >>
                  /\ UNCHANGED closer
       /\ UNCHANGED << inp, toks, errs, nilp, loose, eaten, depth, kind >>
 
@@ -1201,7 +1387,8 @@ D2 == /\ pc = "D2"
       /\ pc' = Head(stack).pc
       /\ kind' = Head(stack).kind
       /\ stack' = Tail(stack)
-      /\ UNCHANGED << inp, toks, i, errs, nilp, loose, eaten, depth, closer >>
+      /\ UNCHANGED << inp, toks, i, errs, nilp, loose, eaten, depth, prec, 
+                      closer >>
 
 parseArgDirective == D0 \/ D1 \/ D2
 
@@ -1273,13 +1460,13 @@ S0 == /\ pc = "S0"
                                                                                                          /\ pc' = "S1"
                                                                                                          /\ stack' = stack
                                                              /\ kind' = kind
-      /\ UNCHANGED << inp, toks, i, errs, nilp, eaten, depth, closer >>
+      /\ UNCHANGED << inp, toks, i, errs, nilp, eaten, depth, prec, closer >>
 
 S1 == /\ pc = "S1"
       /\ pc' = Head(stack).pc
       /\ stack' = Tail(stack)
-      /\ UNCHANGED << inp, toks, i, errs, nilp, loose, eaten, depth, closer, 
-                      kind >>
+      /\ UNCHANGED << inp, toks, i, errs, nilp, loose, eaten, depth, prec, 
+                      closer, kind >>
 
 parseStatement == S0 \/ S1
 
@@ -1296,7 +1483,8 @@ P0 == /\ pc = "P0"
                             /\ errs' = errs
                  /\ pc' = "P2a"
                  /\ stack' = stack
-      /\ UNCHANGED << inp, toks, i, nilp, loose, eaten, depth, closer, kind >>
+      /\ UNCHANGED << inp, toks, i, nilp, loose, eaten, depth, prec, closer, 
+                      kind >>
 
 P1 == /\ pc = "P1"
       /\ IF Tok(i) = "ILLEGAL"
@@ -1305,12 +1493,13 @@ P1 == /\ pc = "P1"
                  /\ pc' = "P3"
             ELSE /\ pc' = "P2"
                  /\ UNCHANGED << errs, nilp >>
-      /\ UNCHANGED << inp, toks, i, loose, eaten, depth, stack, closer, kind >>
+      /\ UNCHANGED << inp, toks, i, loose, eaten, depth, stack, prec, closer, 
+                      kind >>
 
 P2 == /\ pc = "P2"
       /\ i' = i + 1
       /\ pc' = "P0"
-      /\ UNCHANGED << inp, toks, errs, nilp, loose, eaten, depth, stack, 
+      /\ UNCHANGED << inp, toks, errs, nilp, loose, eaten, depth, stack, prec, 
                       closer, kind >>
 
 P2a == /\ pc = "P2a"
@@ -1319,14 +1508,14 @@ P2a == /\ pc = "P2a"
              ELSE /\ TRUE
                   /\ errs' = errs
        /\ pc' = "P3"
-       /\ UNCHANGED << inp, toks, i, nilp, loose, eaten, depth, stack, closer, 
-                       kind >>
+       /\ UNCHANGED << inp, toks, i, nilp, loose, eaten, depth, stack, prec, 
+                       closer, kind >>
 
 P3 == /\ pc = "P3"
       /\ TRUE
       /\ pc' = "Done"
       /\ UNCHANGED << inp, toks, i, errs, nilp, loose, eaten, depth, stack, 
-                      closer, kind >>
+                      prec, closer, kind >>
 
 (* Allow infinite stuttering to prevent deadlock on termination. *)
 Terminating == pc = "Done" /\ UNCHANGED vars
